@@ -30,6 +30,54 @@ var specs = []*Spec{
 	},
 }
 
+func init() {
+	specs = append(specs,
+		&Spec{
+			ID: "C38", Title: "A maximal chunk body always fits the negotiated chunk size",
+			Quick:    Tier{Groups: G("uasc", "^VerifH_C38_"), Budget: 150 * time.Second, Solver: "cvc5"},
+			Thorough: Tier{Groups: G("uasc", "^VerifH_C38_"), Budget: 20 * time.Minute, Solver: "cvc5", Cross: "z3"},
+			Reach:    []string{"VerifH_C38_MaxBodyFits:fits", "VerifH_C38_MaxBodyFits:plusone", "VerifH_C38_None:fits"},
+			Bounds: []string{"chunk size: every value in [8192, 2^31-1] (one symbolic 64-bit variable)", "all five symmetric policies x {Sign, SignAndEncrypt}, and policy None / mode None",
+				"body = the maximum body size computed by SetMaximumBodySize, and that size + 1 (SignAndEncrypt)", "nonces: arbitrary bytes of the policy's nonce length"},
+			Outside: []string{"chunk sizes >= 2^31 (cannot be negotiated: uint32 buffer sizes converted to int) and < 8192 (below the protocol minimum)", "asymmetric (OPN) chunks: covered by C07/C15"},
+			Stubs: []string{"chunk bytes are a symbolic-length byte sequence whose first bytes (headers) are tracked and whose body content is unconstrained (LSlice)",
+				"HMAC: uninterpreted function (fresh output of the hash size); AES-CBC: length-preserving, Go's documented panics for non-block-multiple input"},
+		},
+		&Spec{
+			ID: "C07", Title: "Secure channel chunking round-trips every message under every policy and mode",
+			Quick: Tier{Groups: []Group{{"uasc", "^VerifH_C07_Sizes$"}, {"uasc", "^VerifH_C07_RoundTrip$"}}, Params: map[string]int{"c07.chunks": 2, "c07.cs": 8192, "c07.targets": 4}, MaxSymLen: 2, Budget: 280 * time.Second, Solver: "cvc5"},
+			Thorough: Tier{Groups: []Group{{"uasc", "^VerifH_C07_"}}, Params: map[string]int{"c07.chunks": 4, "c07.cs": 8192, "c07.targets": 6}, MaxSymLen: 4, Budget: 50 * time.Minute, Solver: "cvc5"},
+			Reach: []string{"VerifH_C07_Sizes:sent", "VerifH_C07_Sizes:header", "VerifH_C07_Sizes:multi", "VerifH_C07_RoundTrip:delivered", "VerifH_C07_RoundTrip:multi"},
+			Bounds: []string{"Sizes: chunk size every value in [8192, 2^31-1]; message body of every length that needs at most c07.chunks chunks; all five symmetric policies x {Sign, SignAndEncrypt} and None; starting sequence number any uint32",
+				"RoundTrip: chunk size c07.cs (8192); body lengths {minimal, +1, max-1, max, max+1, 2*max+3} (first c07.targets of them); every body byte, both nonces and the starting sequence number symbolic; the sender's wire bytes are fed to the peer's real receive path"},
+			Outside: []string{"asymmetric OPN chunks (single chunk; key sizes) are decided in C15", "more chunks than c07.chunks; RoundTrip at other chunk sizes", "real AES / HMAC / RSA (idealised: see stubs)"},
+			Stubs: []string{"HMAC and SHA: uninterpreted functions by Ackermann's reduction; AES-CBC: uninterpreted E/D pair with D(E(x)) = x per (key, iv)", "TCP: in-memory stream model; Sizes uses length-abstracted bytes with tracked headers"},
+		},
+		&Spec{
+			ID: "C14", Title: "Symmetric keys follow the specification and are direction-separated",
+			Quick:    Tier{Groups: G("uapolicy", "^VerifH_C14_"), Budget: 120 * time.Second, Solver: "cvc5"},
+			Thorough: Tier{Groups: G("uapolicy", "^VerifH_C14_"), Budget: 10 * time.Minute, Solver: "z3"},
+			Reach:    []string{"VerifH_C14_Derivation:derived", "VerifH_C14_Separation:separated"},
+			Bounds: []string{"all five symmetric policies; both nonces arbitrary byte strings of the policy's nonce length (16 or 32 symbolic bytes each)",
+				"derivation compared byte for byte with a reference P_SHA written from Part 6 6.7.5 / RFC 5246 and the Part 7 key-length table, for client and server roles",
+				"separation: nonces assumed different; policies whose signing key contains a whole hash block (all but Basic128Rsa15)"},
+			Outside: []string{"SHA-1 / SHA-256 / HMAC themselves (uninterpreted)", "separation for Basic128Rsa15 (16 of 20 HMAC bytes: needs a stronger assumption than collision resistance)", "nonces of other lengths"},
+			Stubs:   []string{"HMAC: uninterpreted function by Ackermann's reduction (Derivation); additionally injective = collision resistant (Separation)"},
+		},
+		&Spec{
+			ID: "C15", Title: "Asymmetric crypto is correct for all lengths and enforces key size limits",
+			Quick:    Tier{Groups: G("uapolicy", "^VerifH_C15_"), Params: map[string]int{"c15.sizes": 2}, Budget: 150 * time.Second, Solver: "cvc5"},
+			Thorough: Tier{Groups: G("uapolicy", "^VerifH_C15_"), Params: map[string]int{"c15.sizes": 3}, Budget: 20 * time.Minute, Solver: "cvc5"},
+			Reach:    []string{"VerifH_C15_KeyLimits:accepted", "VerifH_C15_KeyLimits:rejected", "VerifH_C15_Lengths:lengths", "VerifH_C15_RoundTrip:roundtrip"},
+			Bounds: []string{"KeyLimits: local and remote key size every value in [1, 1024] bytes, all five asymmetric policies; accepted iff both inside the Part 7 range",
+				"Lengths: key size every value in the policy's range, 0..3 whole plaintext blocks of symbolic content",
+				"RoundTrip: key sizes {min, max, middle} (first c15.sizes), plaintext lengths {0, 1, maxBlock-1, maxBlock, maxBlock+1, 2*maxBlock+1} with every byte symbolic; wrong private key; signatures over 4 symbolic bytes, different bytes, wrong public key"},
+			Outside: []string{"RSA mathematics: primitives are contracts (Go's documented length limits, decrypt(encrypt(p)) = p for the matching key, ideal unforgeability, collision-resistant digest)", "longer plaintexts"},
+			Stubs:   []string{"rsa.EncryptOAEP/DecryptOAEP/EncryptPKCS1v15/DecryptPKCS1v15/SignPKCS1v15/VerifyPKCS1v15/SignPSS/VerifyPSS: contract stubs; (*rsa.PublicKey).Size: the size given to vfRSAKey"},
+		},
+	)
+}
+
 func findSpec(id string) *Spec {
 	for _, s := range specs {
 		if s.ID == id {
